@@ -347,9 +347,12 @@ Proof. unfold rll_node. reflexivity. Qed.
 Lemma rll_node_bounds x r : 0 <= x < 2 ^ 64 -> rll_node x = Some r -> 0 <= r <= 63.
 Proof. intros Hx E. rewrite rll_node_eq in E. exact (proj2 (rll_node_tie 65 x Hx) r E). Qed.
 
+Lemma l2n_cases n : l2n n = if n <? 9223372036854775808 then Some (2 * n - count_ones n + 1) else None.
+Proof. unfold l2n, two63. reflexivity. Qed.
+
 Lemma l2n_range n ni : 0 <= n -> l2n n = Some ni -> 0 <= ni < 2 ^ 64.
 Proof.
-  intros Hn El. unfold l2n, two63 in El. destruct (Z.ltb_spec n 9223372036854775808); [|discriminate El].
+  intros Hn El. rewrite l2n_cases in El. destruct (Z.ltb_spec n 9223372036854775808); [|discriminate El].
   apply (f_equal (fun o => match o with Some z => z | None => 0 end)) in El. cbv beta iota in El. subst ni.
   pose proof (co_le n ltac:(lia)). pose proof (co_nonneg n). lits. lia.
 Qed.
@@ -486,18 +489,206 @@ Proof.
     rewrite (IH (S h) (a / 2) f f') by (try lia; rewrite p2_S in Ha; lia). reflexivity.
 Qed.
 
+Lemma auth_path_zero peak nc (f f' : nat) : (0 < f)%nat -> (0 < f')%nat ->
+  MmrIdxLocal.auth_path_loop f 0 peak nc = MmrIdxLocal.auth_path_loop f' 0 peak nc.
+Proof.
+  intros Hf Hf'. destruct f as [|f]; [lia|]. destruct f' as [|f']; [lia|].
+  rewrite !(auth_path_loop_eq _ 0). assert (E0 : up_info 0 = None) by reflexivity. rewrite E0. reflexivity.
+Qed.
+
 Theorem tie_auth_path start peak nc : 0 <= start < 2 ^ 64 ->
   get_authentication_path_node_indices start peak nc = mm_get_authentication_path_node_indices start peak nc.
 Proof.
   intros Hs. unfold get_authentication_path_node_indices, mm_get_authentication_path_node_indices.
   rewrite (auth_path_lockstep peak nc 65 start Hs).
   destruct (Z.eq_dec start 0) as [->|Hne].
-  - rewrite !(auth_path_loop_eq _ 0). destruct ((0 <=? nc) && negb (0 =? peak)); reflexivity.
+  - apply auth_path_zero; lia.
   - assert (Eb : bidx 0 (Z.of_nat 63) = 2 ^ 64 - 1) by (rewrite bidx_formula by lia; reflexivity).
     destruct (tree_nodes 63 0 start ltac:(lia)) as (a & h & Hh & Ex & Ha & Ea).
     { rewrite Eb. unfold nn. cbn. lia. }
-    rewrite Ex. apply (auth_path_stable peak nc (63 - h) h a); try lia.
-    split; [exact Ha|]. pose proof (p2_nat_pos (63 - h)).
-    destruct (Z.lt_ge_cases a (2 ^ Z.of_nat (63 - h))) as [|Hge]; [assumption|exfalso].
-    assert (1 <= a / 2 ^ Z.of_nat (63 - h)) by (apply Z.div_le_lower_bound; lia). lia.
+    rewrite Ex. pose proof (p2_nat_pos (63 - h)). apply (auth_path_stable peak nc (63 - h) h a); lia.
+Qed.
+
+(* ---------------------------------------------------------------- get_peak_heights_and_peak_node_indices *)
+Lemma mm_peaks_loop_eq fuel nc height cand :
+  MmrIndex.peaks_loop fuel nc height cand =
+  match fuel with
+  | O => None
+  | S f =>
+      if height =? 0 then Some [] else
+      if cand >? nc then
+        if left_child_ok cand height then
+        if sub_ok height 1 then
+        let c := left_child cand height in
+        let h := wsub 32 height 1 in
+        if c <=? nc then
+          if MmrIndexGen.right_sibling_ok c h then
+          match MmrIndex.peaks_loop f nc h (MmrIndexGen.right_sibling c h) with
+          | None => None
+          | Some l => Some ((h, c) :: l)
+          end else None
+        else MmrIndex.peaks_loop f nc h c
+        else None else None
+      else None
+  end.
+Proof. destruct fuel; reflexivity. Qed.
+
+Lemma mm_right_sibling_range c h r : mm_right_sibling c h = Some r -> 0 <= r < 2 ^ 64.
+Proof.
+  unfold mm_right_sibling, mm_chk. destruct (right_sibling_ok c h); [|discriminate]. intros E.
+  apply (f_equal (fun o => match o with Some z => z | None => 0 end)) in E. cbv beta iota in E. subst r.
+  unfold MmrIndexGen.right_sibling, wsub. apply wrap_range. lia.
+Qed.
+
+Lemma peaks_loop_tie nc : forall (hn : nat) cand (F : nat), 0 <= cand < 2 ^ 64 -> (hn <= 63)%nat -> (hn < F)%nat ->
+  MmrIndex.peaks_loop F nc (Z.of_nat hn) cand = MmrIdxLocal.peaks_loop hn (Z.of_nat hn) cand nc.
+Proof.
+  induction hn as [|hn IH]; intros cand F Hc Hh HF; destruct F as [|F]; try lia;
+    rewrite mm_peaks_loop_eq, peaks_loop_eq.
+  - reflexivity.
+  - destruct (Z.eqb_spec (Z.of_nat (S hn)) 0); [lia|].
+    rewrite Z.gtb_ltb. destruct (Z.ltb_spec nc cand) as [Hgt|Hle]; destruct (Z.leb_spec cand nc); try lia; [|reflexivity].
+    pose proof (p2_nat_pos (S hn)) as Hp. cbv zeta. unfold sub64.
+    destruct (Z.leb_spec (2 ^ Z.of_nat (S hn)) cand) as [Hge|Hlt].
+    + destruct (left_child_val cand (Z.of_nat (S hn)) ltac:(lia) ltac:(lia)) as [-> ->]. cbn [obind].
+      replace (sub_ok (Z.of_nat (S hn)) 1) with true by (unfold sub_ok; symmetry; apply Z.leb_le; lia).
+      replace (wsub 32 (Z.of_nat (S hn)) 1) with (Z.of_nat hn) by (rewrite wsub32_small by (lits; lia); lia).
+      replace (Z.of_nat (S hn) - 1) with (Z.of_nat hn) by lia.
+      destruct (cand - 2 ^ Z.of_nat (S hn) <=? nc).
+      * rewrite (tie_right_sibling (cand - 2 ^ Z.of_nat (S hn)) (Z.of_nat hn)) by (lits; lia).
+        pose proof (mm_right_sibling_range (cand - 2 ^ Z.of_nat (S hn)) (Z.of_nat hn)) as Hr.
+        unfold mm_right_sibling, mm_chk in *.
+        destruct (right_sibling_ok (cand - 2 ^ Z.of_nat (S hn)) (Z.of_nat hn)); cbn [obind]; [|reflexivity].
+        rewrite (IH _ F (Hr _ eq_refl)) by lia.
+        destruct (MmrIdxLocal.peaks_loop hn (Z.of_nat hn) _ nc); reflexivity.
+      * apply IH; lia.
+    + cbn [obind]. replace (left_child_ok cand (Z.of_nat (S hn))) with false; [reflexivity|].
+      unfold left_child_ok. rewrite wshl64_1, shift_ok_64 by lia. unfold sub_ok. cbn [andb]. symmetry. apply Z.leb_gt. lia.
+Qed.
+
+Definition split_peaks (o : option (list (Z * Z))) : option (list Z * list Z) :=
+  match o with Some l => Some (map fst l, map snd l) | None => None end.
+
+Lemma mm_chk_range64 (ok : bool) (v r : Z) : 0 <= v < 2 ^ 64 -> mm_chk ok v = Some r -> 0 <= r < 2 ^ 64.
+Proof.
+  unfold mm_chk. intros Hv E. destruct ok; [|discriminate E].
+  apply (f_equal (fun o => match o with Some z => z | None => 0 end)) in E. cbv beta iota in E. subst r. exact Hv.
+Qed.
+
+Theorem tie_peak_heights_and_indices n : 0 <= n < 2 ^ 64 ->
+  mm_get_peak_heights_and_peak_node_indices n = split_peaks (peak_heights_and_indices n).
+Proof.
+  intros Hn. unfold mm_get_peak_heights_and_peak_node_indices, peak_heights_and_indices.
+  destruct (Z.eqb_spec n 0) as [->|Hn0]; [reflexivity|].
+  replace (sub_ok n 1) with true by (unfold sub_ok; symmetry; apply Z.leb_le; lia).
+  rewrite wsub64_small by lia.
+  rewrite (tie_l2n (n - 1)) by lia. rewrite (tie_num_nodes n Hn).
+  pose proof (mm_chk_range64 (leaf_index_to_node_index_ok (n - 1)) (leaf_index_to_node_index (n - 1))) as Hr1.
+  pose proof (mm_chk_range64 (num_leafs_to_num_nodes_ok n) (num_leafs_to_num_nodes n)) as Hr2.
+  unfold mm_leaf_index_to_node_index, mm_num_leafs_to_num_nodes in *.
+  assert (Hv1 : 0 <= leaf_index_to_node_index (n - 1) < 2 ^ 64) by (unfold leaf_index_to_node_index, wadd; cbv zeta; apply wrap_range; lia).
+  assert (Hv2 : 0 <= num_leafs_to_num_nodes n < 2 ^ 64) by (unfold num_leafs_to_num_nodes, wsub; cbv zeta; apply wrap_range; lia).
+  unfold mm_chk at 1. destruct (leaf_index_to_node_index_ok (n - 1)); cbn [obind split_peaks]; [|reflexivity].
+  unfold mm_chk at 1. destruct (num_leafs_to_num_nodes_ok n); cbn [obind split_peaks]; [|reflexivity].
+  set (rm := leaf_index_to_node_index (n - 1)) in *. set (nc := num_leafs_to_num_nodes n) in *.
+  rewrite (tie_leftmost_ancestor rm Hv1).
+  pose proof (la_gen_bounds rm) as Hla. unfold mm_leftmost_ancestor, mm_chk in *.
+  destruct (leftmost_ancestor_ok rm); cbn [obind split_peaks]; [|reflexivity].
+  destruct (MmrIndexGen.leftmost_ancestor rm) as [tp0 th0]. destruct (Hla tp0 th0 Hv1 eq_refl) as [Htp Hth].
+  rewrite Z.gtb_ltb.
+  (* the adjustment of the top peak *)
+  assert (Hadj : exists tp th,
+            (if nc <? tp0 then let? tp := sub64 tp0 (2 ^ th0) in let? th := sub64 th0 1 in Some (tp, th) else Some (tp0, th0)) =
+            (if (if nc <? tp0 then left_child_ok tp0 th0 && sub_ok th0 1 else true)
+             then Some (if nc <? tp0 then left_child tp0 th0 else tp0, if nc <? tp0 then wsub 32 th0 1 else th0) else None) /\
+            ((if nc <? tp0 then left_child tp0 th0 else tp0) = tp /\ (if nc <? tp0 then wsub 32 th0 1 else th0) = th /\
+             ((if nc <? tp0 then left_child_ok tp0 th0 && sub_ok th0 1 else true) = true -> 0 <= tp < 2 ^ 64 /\ 0 <= th <= 63))).
+  { destruct (nc <? tp0).
+    - do 2 eexists. split; [|split; [reflexivity|split; [reflexivity|]]].
+      + unfold sub64. pose proof (pow2_pos th0 ltac:(lia)) as Hp.
+        destruct (Z.leb_spec (2 ^ th0) tp0) as [Hge|Hlt].
+        * destruct (left_child_val tp0 th0 ltac:(lia) ltac:(lia)) as [-> ->]. cbn [obind andb].
+          unfold sub_ok. destruct (Z.leb_spec 1 th0); cbn [obind]; [|reflexivity].
+          rewrite wsub32_small by (lits; lia). reflexivity.
+        * cbn [obind]. replace (left_child_ok tp0 th0) with false; [reflexivity|].
+          unfold left_child_ok. rewrite wshl64_1, shift_ok_64 by lia. unfold sub_ok. cbn [andb]. symmetry. apply Z.leb_gt. lia.
+      + intros Hok. apply andb_true_iff in Hok. destruct Hok as [Hok1 Hok2].
+        unfold sub_ok in Hok2. apply Z.leb_le in Hok2.
+        unfold left_child, wsub. split; [apply wrap_range; lia|]. rewrite wrap_small by (lits; lia). lia.
+    - do 2 eexists. split; [reflexivity|]. split; [reflexivity|]. split; [reflexivity|]. intros _. lia. }
+  destruct Hadj as (tp & th & Eadj & Etp & Eth & Hrange). rewrite Eadj. rewrite Etp, Eth.
+  destruct (if nc <? tp0 then left_child_ok tp0 th0 && sub_ok th0 1 else true); cbn [obind split_peaks]; [|reflexivity].
+  destruct (Hrange eq_refl) as [Htpr Hthr].
+  rewrite (tie_right_sibling tp th Htpr ltac:(lits; lia)).
+  pose proof (mm_right_sibling_range tp th) as Hrs. unfold mm_right_sibling, mm_chk in *.
+  destruct (right_sibling_ok tp th); cbn [obind split_peaks]; [|reflexivity].
+  replace th with (Z.of_nat (Z.to_nat th)) at 1 3 by lia.
+  rewrite (peaks_loop_tie nc (Z.to_nat th) _ 65 (Hrs _ eq_refl)) by lia.
+  rewrite Z2Nat.id by lia.
+  destruct (MmrIdxLocal.peaks_loop (Z.to_nat th) th (MmrIndexGen.right_sibling tp th) nc); reflexivity.
+Qed.
+
+(* ---------------------------------------------------------------- the inlined parent / sibling steps *)
+Theorem tie_up_info x : 0 <= x < 2 ^ 64 ->
+  up_info x =
+  match mm_right_lineage_length_and_own_height x with
+  | None => None
+  | Some (rac, h) =>
+      if negb (rac =? 0)
+      then let? s := mm_left_sibling x h in let? p := add64 x 1 in Some (true, s, p)
+      else let? s := mm_right_sibling x h in let? q := shl1 (h + 1) in let? p := add64 x q in Some (false, s, p)
+  end.
+Proof.
+  intros Hx. unfold up_info. rewrite <- (tie_rll_and_height x Hx).
+  pose proof (rll_and_height_bounds x) as Hb.
+  destruct (rll_and_height x) as [[rac h]|]; [|reflexivity]. destruct (Hb rac h Hx eq_refl) as [Hr Hh]. cbn [obind].
+  rewrite (tie_left_sibling x h Hx ltac:(lits; lia)), (tie_right_sibling x h Hx ltac:(lits; lia)). reflexivity.
+Qed.
+
+Theorem tie_step_up x : 0 <= x < 2 ^ 64 ->
+  step_up x =
+  match mm_right_lineage_length_and_own_height x with
+  | None => None
+  | Some (rac, h) =>
+      if negb (rac =? 0) then let? p := add64 x 1 in Some (true, p)
+      else let? q := shl1 (h + 1) in let? p := add64 x q in Some (false, p)
+  end.
+Proof.
+  intros Hx. unfold step_up. rewrite <- (tie_rll_and_height x Hx).
+  destruct (rll_and_height x) as [[rac h]|]; reflexivity.
+Qed.
+
+(* ---------------------------------------------------------------- all of them *)
+Definition u64 (x : Z) : Prop := 0 <= x < 2 ^ 64.
+
+Theorem index_functions_regenerated :
+  (forall i n, 0 <= i -> u64 n -> li_mt_pk i n = mm_leaf_index_to_mt_index_and_peak_index i n) /\
+  (forall i, u64 i -> rll_leaf i = mm_right_lineage_length_from_leaf_index i) /\
+  (forall x, u64 x -> MmrIdxLocal.leftmost_ancestor x = mm_leftmost_ancestor x) /\
+  (forall i, u64 i -> l2n i = mm_leaf_index_to_node_index i) /\
+  (forall n, u64 n -> num_nodes n = mm_num_leafs_to_num_nodes n) /\
+  (forall x h, u64 x -> 0 <= h < 2 ^ 32 -> MmrIdxLocal.left_sibling x h = mm_left_sibling x h) /\
+  (forall x h, u64 x -> 0 <= h < 2 ^ 32 -> MmrIdxLocal.right_sibling x h = mm_right_sibling x h) /\
+  (forall x, u64 x -> rll_and_height x = mm_right_lineage_length_and_own_height x) /\
+  (forall x, u64 x -> rll_node x = mm_right_lineage_length_from_node_index x) /\
+  (forall x, u64 x -> parent x = mm_parent x) /\
+  (forall n, u64 n -> node_indices_added_by_append n = mm_node_indices_added_by_append n) /\
+  (forall start peak nc, u64 start ->
+     get_authentication_path_node_indices start peak nc = mm_get_authentication_path_node_indices start peak nc) /\
+  (forall n, u64 n -> mm_get_peak_heights_and_peak_node_indices n = split_peaks (peak_heights_and_indices n)).
+Proof.
+  unfold u64. repeat split.
+  - intros; apply tie_li_mt_pk; assumption.
+  - exact tie_rll_leaf.
+  - exact tie_leftmost_ancestor.
+  - exact tie_l2n.
+  - exact tie_num_nodes.
+  - exact tie_left_sibling.
+  - exact tie_right_sibling.
+  - exact tie_rll_and_height.
+  - exact tie_rll_node.
+  - exact tie_parent.
+  - exact tie_node_indices_added_by_append.
+  - exact tie_auth_path.
+  - exact tie_peak_heights_and_indices.
 Qed.
